@@ -219,10 +219,19 @@ func (w *sworld) atQuiescence() {
 			for _, a := range addrs {
 				prev, ok := w.prevAnnouncer[a]
 				cur, ok2 := announcer[a]
+				if ok && ok2 && prev == cur {
+					w.stat("probe.address-kept-its-announcer-across-two-quiescences")
+					if len(w.prevEligible[a]) != len(eligible[a]) {
+						w.stat("probe.announcer-kept-although-the-eligible-set-changed")
+					}
+				}
 				if !ok || !ok2 || prev == cur {
 					continue
 				}
 				w.stat("probe.announcer-moved")
+				if !contains(eligible[a], prev) {
+					w.stat("probe.announcer-moved-because-the-owner-left")
+				}
 				pe, ce := w.prevEligible[a], eligible[a]
 				if contains(ce, prev) && contains(pe, cur) {
 					sig := ""
@@ -256,6 +265,15 @@ func (w *sworld) atQuiescence() {
 				selects := st.PeerSelectsNode(p, n)
 				if len(wl) > 0 {
 					w.nontrivial = true
+					w.stat("probe.bgp-routes-expected-on-a-session")
+					if len(wl) >= 2 {
+						w.stat("probe.bgp-several-routes-on-a-session")
+					}
+				} else if selects {
+					w.stat("probe.bgp-session-with-nothing-to-offer")
+				}
+				if !selects {
+					w.stat("probe.bgp-peer-not-selecting-the-node")
 				}
 				for s := range svcs {
 					if wantSvc[s] == nil {
@@ -281,6 +299,14 @@ func (w *sworld) atQuiescence() {
 					key := svc.Namespace + "/" + svc.Name
 					want := st.BGPEligible(n, svc)
 					got := w.spk[n].ctrl.announced[config.BGP][key]
+					if want {
+						w.stat("probe.bgp-eligible-node-service-pair")
+						if svc.Spec.ExternalTrafficPolicy == v1.ServiceExternalTrafficPolicyLocal {
+							w.stat("probe.bgp-eligible-under-local-policy")
+						}
+					} else if len(specspk.StatusAddrs(svc)) > 0 {
+						w.stat("probe.bgp-ineligible-node-service-pair-with-address")
+					}
 					if want != got {
 						sig := ""
 						if at, ok := w.spk[n].svcProcessedAt[key]; ok && at < w.spk[n].firstSights {
@@ -297,6 +323,9 @@ func (w *sworld) atQuiescence() {
 						wl = append(wl, p)
 					}
 					sort.Strings(wl)
+					if len(wl) > 0 {
+						w.stat("probe.service-reported-as-advertised-to-peers")
+					}
 					if !reflect.DeepEqual(wl, o.bgpSvc[key]) && !(len(wl) == 0 && len(o.bgpSvc[key]) == 0) {
 						w.violate("C05", "peers-for-service", "", fmt.Sprintf("node %s reports %s as advertised to %v, expected %v", n, key, o.bgpSvc[key], wl))
 					}
@@ -371,6 +400,7 @@ func (w *sworld) forkCheck() {
 		}
 		if calls == 1 {
 			w.nontrivial = true
+			w.stat("probe.fork-accepted-configuration-compared")
 			cl.ListPerm = w.perm("fork list order")
 			_, _ = r.Reconcile(context.Background(), reqFor(metallbNS+"/y"))
 			if calls != 1 {
